@@ -464,7 +464,9 @@ def run(ctx):
         if h is None: continue
         cexs += [r for r in h.results if r['kind'] == 'cex']
         ctx.obligations['builder: new() then %d register_type calls (+ next_type_id/get/finish) agree with the list model (%d value-equality patterns)' % (k, sum(h.kinds.values()))] = 'unsat' if not h.kinds.get('cex') else 'sat'
-    nlong = 40 if Tq else 20
+    thr = size_threshold()
+    nlong = max(40 if Tq else 20, thr + 4)     # longer than every size constant in the code of the interner / builder (size-dependent fast paths)
+    ctx.bounds['long black-box history'] = '%d pairwise distinct values (largest size constant in interner/registry/portable code: %d)' % (nlong, thr)
     for nl, b in [(n_, b_) for n_ in (2, 3, 4, nlong) for b_ in (False, True)]:
         # the short ones leave the order of the values free (order-dependent representations); the long one is capped in time: on a representation
         # that forks per comparison it is deferred and the short ones decide
